@@ -72,7 +72,7 @@ func runR161(c *core.Ctx) {
 	for _, fl := range fd.Type.Params.List {
 		for _, n := range fl.Names {
 			if _, ok := inf.Defs[n].Type().Underlying().(*types.Interface); ok && inf.Defs[n].Name() != "reader" {
-				if nn, ok := inf.Defs[n].Type().(*types.Named); ok && nn.Obj().Name() == "KeyLocator" {
+				if nn, ok := inf.Defs[n].Type().(*types.Named); ok && core.NameOf(nn.Obj()) == "KeyLocator" {
 					keysParam = inf.Defs[n]
 				}
 			}
@@ -237,7 +237,7 @@ func runR161(c *core.Ctx) {
 	var keysP types.Object
 	for _, fl := range dbqD.Type.Params.List {
 		for _, n := range fl.Names {
-			if nn, ok := rinf.Defs[n].Type().(*types.Named); ok && nn.Obj().Name() == "BatchKeySet" {
+			if nn, ok := rinf.Defs[n].Type().(*types.Named); ok && core.NameOf(nn.Obj()) == "BatchKeySet" {
 				keysP = rinf.Defs[n]
 			}
 		}
@@ -476,7 +476,7 @@ func runR163(c *core.Ctx) {
 				return false
 			}
 			cf := core.Callee(rinf, call)
-			return cf != nil && strings.HasPrefix(cf.Name(), "New") && strings.HasSuffix(cf.Name(), "Request")
+			return cf != nil && strings.HasPrefix(core.NameOf(cf), "New") && strings.HasSuffix(core.NameOf(cf), "Request")
 		})
 		c.Check(r.sources > 0 && r.propagated && !r.lost && len(r.early) == 0, r2, name, "a duplicate key aborts the call before the request is built", d.Pos(), "",
 			fmt.Sprintf("add-keys calls: %d; their error returned: %v, lost on some path: %v; request constructors reachable before the error was tested: %d", r.sources, r.propagated, r.lost, len(r.early)))
@@ -630,7 +630,7 @@ func runR166(c *core.Ctx) {
 		found := false
 		ast.Inspect(fd.Body, func(n ast.Node) bool {
 			if call, ok := n.(*ast.CallExpr); ok {
-				if cf := core.Callee(inf, call); cf != nil && cf.Name() == ctor {
+				if cf := core.Callee(inf, call); cf != nil && core.NameOf(cf) == ctor {
 					found = true
 				}
 			}
